@@ -157,6 +157,24 @@ def run(ctx: Ctx):
                     and n.func.attr in ("set_position", "reset"):
                 rc = E.recv_class(n.func.value, g_)
                 if rc is None or getattr(rc, "name", "") == "Unpacker":
+                    # a forward reposition is harmless: `<start> + f(<declared length>)` where start
+                    # is the cursor at entry and the node is behind the guard that rejects a
+                    # declared length shorter than the header (then f(length) >= header size)
+                    if n.func.attr == "set_position" and n.args and isinstance(n.args[0], ast.BinOp) \
+                            and isinstance(n.args[0].op, ast.Add):
+                        gq = cfg_of(g_)
+                        atq = Atomizer(model, g_.module, g_.cls)
+                        qn = [x for x in gq.nodes if x.kind == "stmt" and x.ast is not None
+                              and any(c is n for c in x.calls())]
+                        startv = [A.dotted(x.targets[0]) for x in A.walk_no_nested(g_.node)
+                                  if isinstance(x, ast.Assign) and isinstance(x.value, ast.Call)
+                                  and A.call_name(x.value).endswith(".get_position")]
+                        fx = must_facts(gq, atq, qn[0]) if qn else set()
+                        lower_bounded = any(f_[3] is False and (
+                            (f_[1] == "<" and str(f_[2]) == "0") or (f_[1] == ">" and str(f_[0]) == "0"))
+                            for f_ in fx)
+                        if startv and A.dotted(n.args[0].left) in startv and lower_bounded:
+                            continue
                     ctx.fail("decode-loop-callees:no-rewind", g_.loc(n),
                              f"{g_.qualname} (reached from every decode loop through "
                              f"Avp.from_unpacker) repositions the unpacker cursor with "
